@@ -38,3 +38,15 @@ func (m *Machine) VerifSetClock(t Time) {
 		}
 	}
 }
+
+// VerifTopology returns the default resolver's Require topology (the order
+// produced by graph.TopologicalSort, which depends on map iteration).
+func (m *Machine) VerifTopology() S {
+	rr, ok := m.resolver.(*DefaultRelationsResolver)
+	if !ok {
+		return nil
+	}
+	return slicesClone(rr.topology)
+}
+
+func slicesClone(s S) S { return append(S{}, s...) }
